@@ -1111,3 +1111,27 @@ func TestVerif_C08_h2life(t *testing.T) {
 	}
 	s.Finish()
 }
+
+// errH2Timeout (ResponseHeaderTimeout on HTTP/2) lives in this package: its answers to errors.Is /
+// errors.As vs the model's table (Req/Pool/CancelErr.lean, source h2RespHeaderTimeout).
+func TestVerif_C08_h2errclass(t *testing.T) {
+	s := verifh.New(t, "C08", "h2errclass",
+		"internal/http2's errH2Timeout, bare and wrapped in *url.Error / %w: errors.Is(context.Canceled), errors.Is(context.DeadlineExceeded), net.Error.Timeout() — compared with the model's table; non-trivial = all")
+	f := func(b bool) string {
+		if b {
+			return "1"
+		}
+		return "0"
+	}
+	for _, ch := range []string{"-", "u", "b", "ub"} {
+		err := errH2Timeout
+		for i := 0; i < len(ch) && ch != "-"; i++ {
+			err = fmt.Errorf("c08 wrapper %c: %w", ch[i], err)
+		}
+		var ne net.Error
+		to := errors.As(err, &ne) && ne.Timeout()
+		got := fmt.Sprintf("c=%s d=%s t=%s", f(errors.Is(err, context.Canceled)), f(errors.Is(err, context.DeadlineExceeded)), f(to))
+		s.Case("c08errclass h2RespHeaderTimeout "+ch, got, true, "", true, "errH2Timeout behind "+ch+" -> "+got)
+	}
+	s.Finish()
+}
